@@ -152,6 +152,24 @@ def descTextOK (indentLen : Nat) (d : String) : Bool :=
    else if lead then (lines.length == 1 || minIndentZero (lines.drop 1))
    else minIndentZero lines)
 
+/-! #### over-long lines (finding H12): the same conditions asked of the WRAPPED lines (`Props/C12_wrap.lean`) -/
+
+/-- the lines `print_description` lays out at the given indentation (`wrapped_lines(desc.split("\n"), 120 - len(indent))`) -/
+def wrappedOf (indentLen : Nat) (d : String) : List Text := SdlPrintT.wrappedLines (SdlPrintT.splitLF (T d)) (120 - indentLen)
+
+/-- `descTextOK` WITHOUT the width clause: the shape conditions are asked of the WRAPPED lines -/
+def descWrapOK (indentLen : Nat) (d : String) : Bool :=
+  let t := T d
+  let lines := wrappedOf indentLen d
+  let first := lines.headD []
+  let oneLine := lines.length == 1 && first.length < 70 && !(first.getLast? == some 34)
+  let lead := first.length > (SdlPrintT.lstrip first).length
+  !d.isEmpty && !t.isEmpty && t.all (fun c => (32 ≤ c || c == 9 || c == 10)) &&
+  !lineBlank first && !lineBlank (lines.getLastD []) &&
+  (if oneLine then !(first.getLast? == some 92)
+   else if lead then (lines.length == 1 || minIndentZero (lines.drop 1))
+   else minIndentZero lines)
+
 def descOKT (indentLen : Nat) (d : Option String) : Bool :=
   match d with | some x => x.isEmpty || descTextOK indentLen x | none => true
 
